@@ -16,8 +16,7 @@ CONSTANTS
   PreResp = FALSE
   Probe = FALSE
   AsBuiltT <- NoT
-  GenDepth = 0
-SPECIFICATION FairSpecH
+SPECIFICATION TFairSpec
 VIEW TView
 PROPERTY C19Live
 CHECK_DEADLOCK FALSE
